@@ -98,9 +98,10 @@ class Multiplication:
     processed_circulars = set()
     for l in segment.dovetails + segment.containments:
       if l.is_circular():
-        if l not in processed_circulars:
+        # circular lines are listed once for each of the two ends
+        if id(l) not in processed_circulars:
           self.__divide_counts(l, factor)
-          processed_circulars.add(l)
+          processed_circulars.add(id(l))
       else:
         self.__divide_counts(l, factor)
 
@@ -112,9 +113,9 @@ class Multiplication:
     for l in segment.dovetails + segment.containments:
       if l.is_circular():
         # circular lines are listed once for each of the two ends
-        if l in processed_circulars:
+        if id(l) in processed_circulars:
           continue
-        processed_circulars.add(l)
+        processed_circulars.add(id(l))
       lc = l.clone()
       # the identifier of a line cannot be used also for its copy
       if not gfapy.is_placeholder(lc.name):
